@@ -106,6 +106,17 @@ def run_unit(unit_name, rlimit=None, extra_args=()):
     res['notes'] = list(unit.notes)
     res['assumed'] = list(unit.assumed)
     res['sources'] = sorted(unit.sources)
+    sha = hashlib.sha256((unit.text + repr(rlimit) + repr(extra_args)).encode()).hexdigest()[:20]
+    cpath = os.path.join(BUILD, 'cache', 'verus_%s_%s.pickle' % (unit_name, sha))
+    if os.environ.get('VERIF_NO_CACHE') != '1' and os.path.exists(cpath):
+        try:
+            import pickle
+            cres = pickle.load(open(cpath, 'rb'))
+            cres['notes'] = list(unit.notes) + ['verdicts reused from an identical generated unit (sha %s)' % sha]
+            cres['reused'] = True
+            return cres, unit
+        except Exception:
+            pass
     cmd = ['verus', gen, '--output-json', '--time', '--multiple-errors', '4']
     if rlimit:
         cmd += ['--rlimit', str(rlimit)]
@@ -189,5 +200,12 @@ def run_unit(unit_name, rlimit=None, extra_args=()):
     res['functions'] = fns
     res['wall_s'] = time.time() - t0
     res['gen'] = gen
-    res['sha'] = hashlib.sha256(unit.text.encode()).hexdigest()[:16]
+    res['sha'] = sha
+    if res['status'] == 'ok' and not any('Resource limit' in m for f in fns.values() for (_, m, _) in f.errors):
+        try:
+            import pickle
+            os.makedirs(os.path.join(BUILD, 'cache'), exist_ok=True)
+            pickle.dump(res, open(cpath, 'wb'))
+        except Exception:
+            pass
     return res, unit
